@@ -1,7 +1,7 @@
 #!/usr/bin/env python3
 """Re-evaluates every seeded change under /verif/seeded: negative controls (neg_*) against all twenty quick checks
 (they run first), positive seeds against the quick check of their property.  Writes seeded/RESULTS.json.
-Usage: tools/seed_matrix.py [--only prefix] [--match substring] [--scoped] [--jobs N]"""
+Usage: tools/seed_matrix.py [--only prefix] [--match substring] [--scoped] [--pos] [--jobs N]"""
 import json, os, subprocess, sys, glob, threading
 from concurrent.futures import ThreadPoolExecutor
 ROOT = os.path.dirname(os.path.dirname(os.path.abspath(__file__)))
@@ -59,6 +59,8 @@ def one(d):
 
 
 dirs = [d for d in sorted(glob.glob(os.path.join(ROOT, 'seeded', '*'))) if os.path.isdir(d) and os.path.basename(d).startswith(only) and match in os.path.basename(d)]
+if '--pos' in sys.argv:
+    dirs = [d for d in dirs if not os.path.basename(d).startswith('neg_')]
 dirs.sort(key=lambda d: (not os.path.basename(d).startswith('neg_'), os.path.basename(d)))
 with ThreadPoolExecutor(jobs) as ex:
     list(ex.map(one, dirs))
